@@ -19,7 +19,7 @@ ASSUMPTIONS = ["bit arrays are given as Python lists of 0/1 (the documented type
                "(56/64 bits, 28..33 nucleotides) exist to reach these regimes; their inputs are mostly concrete (first 3 and last 5 symbols symbolic, two fixed "
                "patterns for the rest, the free symbols enumerated exhaustively) because nested divisions over dozens of free variables are out of reach for "
                "linear integer arithmetic"]
-BUDGET_S = {"quick": 900, "thorough": 7200}
+BUDGET_S = {"quick": 900, "thorough": 1500}
 
 
 def make_loader(cfg):
